@@ -423,6 +423,7 @@ def functable_diffs(E, O):
         zero = set(getattr(O, "zero_blocks", ()))
         # an entry role left on a kept zero-sized block (documented leftover) is not an instruction's
         o = {p_ for p_ in o if p_ in e or p_ not in zero}
+        o = o - (getattr(E, "func_entries_optional", {}).get(f, set()) - e)
         if e != o:
             out.append(D("function-entries", r_func=f, expected=sorted(e), observed=sorted(o), r_rel="missing" if e - o and not o - e else "extra" if o - e and not e - o else "different"))
     return out
